@@ -373,13 +373,13 @@ ASSUMPTIONS_COMMON = [
 
 NOT_DECIDED = {
     "C06": "that `build` emits balanced programs (static half); that the per-implementation clauses of V2 (Basic) and V3 (Simple) for the stack methods are the same statements as the V1 trait contract is by reading, no refinement proof links the files; two closure statements of type_cast and the Slice-of-Concatenation arm of access_with_symbol are assumed stand-ins",
-    "C07": "everything not under contract: lexer, parser, builder, conversions, display, optimise/clone, the sort inside Basic's end_list, SimpleGarnishData's interning adders, its text / byte / symbol-list iterators and clone/optimise; the element conversions inside Basic's text / byte / symbol-list iterators (`unwrap()` on a cell of the window) and the Slice-of-List sub-arm of Simple's collect_concatenation_indices are assumed stand-ins",
+    "C07": "everything not under contract: lexer, parser, builder, conversions, display, optimise/clone, the sort inside Basic's end_list, SimpleGarnishData's text readers and builders (String code: get_char_list_len / get_char_list_item / add_to_current_char_list / end_char_list - a bounded Kani run over the real object did not finish), its text / byte / symbol-list iterators and clone/optimise; termination of cache_add's probe loop; the element conversions inside Basic's text / byte / symbol-list iterators (`unwrap()` on a cell of the window) and the Slice-of-List sub-arm of Simple's collect_concatenation_indices are assumed stand-ins",
     "C08": "two closure statements of type_cast (Concatenation -> List) are cut out and assumed; the call through SimpleGarnishData's function-pointer field is an assumed stand-in = one call of the installed pointer (Simple's and Basic's defer_op are proved to forward once, operands in source order, units V3 / V2)",
-    "C09": "f64::powf and f64 % f64 (libm, unmodelled by CBMC); float * and / exactness and in-range float // (tier deep, not registered); integer ** exactness only in the thorough tier",
+    "C09": "f64::powf and f64 % f64 (libm, unmodelled by CBMC); float * and / exactness and in-range float // (tier deep, not registered); integer ** exactness for exponents >= 32 only in the thorough tier (power_int; exponents 0..=31 are covered in the quick tier by the induction step power_small_exponent_int, listed as bounded)",
     "C10": "that `build` places right operands / arms behind the jumps; evaluation counts over whole programs",
     "C11": "slice operands (frame only); that the data implementations' iterators yield the sequences the trait contract names (proved for SimpleGarnishData's list-item and concatenation iterators asked for everything, unit V3: insertion order / flat item sequence; for BasicGarnishData's list-item, concatenation, char-list and byte-list iterators, unit V2: the requested window in order, the element conversion of the two text iterators and the draining of a list iterator being assumed stand-ins; Basic's symbol-list iterator beyond its window size and Simple's text iterators are assumed); termination of the work list; of the equivalence-relation laws of the unbounded relation symmetry, reflexivity and transitivity are machine-checked lemmas over the specification `weq` (given symmetric / transitive numeric equality - K1 proves both for SimpleNumber; reflexivity for NaN-free values of the types the statement lists), and hold for the code through `perform_equality_check.structural` on runs that return",
     "C12": "slices of char/byte lists; chars and bytes are ordered by the data object's own PartialOrd (assumed to be the natural order)",
-    "C15": "SimpleGarnishData: the key computation of cache_add (DefaultHasher; cut out, nothing assumed about it), the text / byte-list / symbol-list builders that feed cache_add (end_char_list, end_byte_list, parse_add_*), termination of the probe loop; Basic's text/symbol adders and conversions other than add_byte_list_from",
+    "C15": "SimpleGarnishData: the key computation of cache_add (DefaultHasher; cut out, nothing assumed about it), the text / symbol-list builders that feed cache_add (end_char_list, parse_add_*; end_byte_list is proved), termination of the probe loop; Basic's text/symbol adders, the two sorted tables' push_to_symbol_table_block / push_to_expression_symbol_block and conversions other than add_byte_list_from; SimpleDataList::default (takes `mut self`) establishing the three constants is by reading",
     "C16": "std's sort inside Basic's end_list (the window borrow, count and sort_by are an assumed stand-in; the rest of end_list is proved, Simple's end_list entirely); symbol lookup in a Slice of a Concatenation (assumed stand-in)",
     "C17": "that `build` compiles an identifier to one Resolve carrying its symbol; call counts over whole programs; what a host function does once called; the call through SimpleGarnishData's function-pointer fields itself is an assumed stand-in `verif_call_resolver` / `verif_call_op_handler` = exactly one call of the installed pointer (Simple's resolve / defer_op / call_resolver / call_op_handler are proved to be that one call with the same arguments, unit V3; Basic's three hooks forward exactly one call of the companion's hook, unit V2; Simple's `apply` is the trait's default)",
 }
